@@ -33,7 +33,7 @@ def env_level(ctx: Ctx):
     rng = ctx.rng.fork("mask-env")
     shipped = scen.shipped()
     names = [n for n in MASK_SCEN if n in shipped][: ctx.scale(2, 3)]
-    total = agree = 0
+    total = agree = executed = 0
     for name in names:
         try:
             env = scen.make_env(scen.load_cfg(shipped[name]))
@@ -66,10 +66,39 @@ def env_level(ctx: Ctx):
                                            "action": ident},
                                           f"{name} ep{ep} step{step}: action {i} {ident} {opts}: mask={int(mask[i])} but __call__ -> {out}",
                                           {"scenario": name, "episode": ep, "step": step, "action_index": i, "req": req})
+                # executed-action oracle: the mask bit computed immediately before REALLY executing the entry's request
+                fileops = [i for i, (ident, _) in amap.items() if "file" in ident or "folder" in ident]
+                for _ in range(ctx.scale(3, 6)):
+                    i = rng.choice(fileops) if fileops and rng.chance(1, 2) else rng.below(n_actions)
+                    ident, opts = amap[i]
+                    req = env.agent.action_manager.form_request(ident, opts)
+                    bit = bool(sim._request_manager.check_valid(list(req), {}))
+                    with rig.ValidatorSpy() as spy:
+                        try:
+                            resp = sim.apply_request(list(req))
+                        except Exception as e:
+                            ctx.violation({"kind": "request-raises", "exc": type(e).__name__, "action": ident},
+                                          f"{name}: executing action {i} {ident} {opts} raised {type(e).__name__}: {str(e)[:100]}",
+                                          {"scenario": name, "req": req})
+                            continue
+                    st = getattr(resp, "status", None)
+                    reason = (getattr(resp, "data", {}) or {}).get("reason")
+                    by_rule = st == "failure" and reason is not None and reason in spy.false_messages
+                    executed += 1
+                    ctx.count("executed:" + ("allowed" if bit else "masked") + ":" + str(st))
+                    if bit and (by_rule or st == "unreachable"):
+                        ctx.violation({"kind": "allowed-action-refused-by-rule", "action": ident, "status": st},
+                                      f"{name} ep{ep} step{step}: mask allowed action {i} {ident} {opts} but it was refused: {st} {reason!r}",
+                                      {"scenario": name, "episode": ep, "step": step, "action_index": i, "req": req, "reason": reason})
+                    if not bit and st == "success":
+                        ctx.violation({"kind": "masked-out-action-succeeded", "action": ident},
+                                      f"{name} ep{ep} step{step}: masked-out action {i} {ident} {opts} succeeded",
+                                      {"scenario": name, "episode": ep, "step": step, "action_index": i, "req": req})
                 a = rng.choice(trans) if trans and rng.chance(1, 2) else rng.below(n_actions)
                 env.step(a)
         env.close()
     ctx.cov["mask_entries_compared"] = total
+    ctx.cov["actions_really_executed_against_their_mask_bit"] = executed
     ctx.oblige("rig:mask bit == reaches handler, every action-map entry at every step", "correspondence", agree == total,
                f"{total - agree} of {total} entries disagree")
 
@@ -85,7 +114,7 @@ def run(ctx: Ctx):
     ctx.cov["rule"] = ("(a) every route / mutation / action request of live trees at random states: real check_valid vs model checkValid and vs "
                        "real dispatch; (b) every action-map entry at every step of random episodes on scenarios with action masking; "
                        "non-trivial = masked-out entries; distinct by (scenario, episode/round, step, entry)")
-    recs = c05.explore(ctx, want_live=False)
+    recs = c05.explore(ctx, want_live=False, structure=False)
     tot = ok = 0
     for r in recs:
         if r["kind"] == "tree":
